@@ -180,6 +180,19 @@ def run(rep, pdb, tier):
     # ---- no numerical decision is taken by the lexicographic order of complex values
     from .c01 import rule_magnitude
     n_cmp = rule_magnitude(rep, pdb, ["polynomial::Polynomial<f64>::roots", "%s::roots" % PC], key="magnitude")
+    # ---- the root finder gives up (panics) only for degree 0: no other `if .. { <diverges without returning> }` in the search
+    from .guards import diverges as _div
+    gave_up = []
+    for f_ in [ps] + [x for x in (pdb.fn("%s::laguer" % PC),) if x is not None]:
+        cf = Ctx.for_fn(pdb, f_)
+        for n_ in walk(f_["body"]):
+            if n_.get("k") == "If" and n_.get("else") is None and _div(n_["then"]) and not any(x.get("k") in ("Ret", "Break", "Continue") for x in walk(n_["then"])):
+                ats = cond_atoms(cf, n_["cond"], True)
+                deg0 = f_ is ps and len(ats) == 1 and ats[0][0] == "cmp" and ats[0][1] == "==" and {ats[0][2], ats[0][3]} == {DEG, num(0)}
+                if not deg0:
+                    gave_up.append(n_)
+    rep.add("panics-only-degree-0", "poly_solve and laguer panic only for a degree-0 polynomial: every other input gets its n roots (an iteration-count or convergence guard that panics turns hard inputs into failures)",
+            not gave_up, gave_up[0] if gave_up else ps["body"], "other panicking guards: %s" % [loc(g) for g in gave_up])
     # ---- Cardano: the triple-root shortcut is taken only when d0 == 0 AND d1 == 0
     cs = pdb.fn("%s::cubic_solve" % PC)
     rule = "in cubic_solve the shortcut that returns one value three times is control-dependent on both discriminant quantities being zero (d0 == 0 && d1 == 0)"
@@ -209,6 +222,28 @@ def run(rep, pdb, tier):
             okc = len(tested) == 2
             det = "shortcut guarded by %d zero tests" % len(tested)
         rep.add("cardano-branch", rule, okc, anchor if anchor is not None else cs["body"], det)
+        # ... and the value it returns three times is the triple root -b / (3a)
+        if okc:
+            a_, b_ = P(0), P(1)
+            wants = (("op", "/", ("neg", b_), ("op", "*", num(3), a_)), ("op", "/", ("neg", b_), ("op", "*", a_, num(3))))
+            if copies and len(copies) == 2:
+                firsts = [e for e in e3 if e.target == copies[0].target and e.index == num(0) and facts(c3, e.node) == facts(c3, copies[0].node)]
+                tv = firsts[0].value if len(firsts) == 1 else None
+            else:
+                tt_ = c3.term(anchor["e"]) if anchor is not None and anchor.get("k") == "Ret" else None
+                tv = tt_[3] if tt_ is not None and len(tt_) == 4 else None
+            if tv is not None and tv[0] == "var" and c3.def_term(tv) is not None:
+                tv = c3.def_term(tv)
+
+            def _unvar(t_):
+                if isinstance(t_, tuple):
+                    if t_ and t_[0] == "var" and len(t_) == 2 and c3.def_term(t_) is not None:
+                        return _unvar(c3.def_term(t_))
+                    return tuple(_unvar(x_) if isinstance(x_, tuple) else x_ for x_ in t_)
+                return t_
+            tv = _unvar(tv) if tv is not None else None
+            rep.add("cardano-branch/value", "the triple-root shortcut returns -b / (3a) (the coefficient of x^2 over three times the leading one), not a sibling coefficient", tv in wants,
+                    anchor if anchor is not None else cs["body"], "value = %s" % (show(tv, c3) if tv is not None else None))
     # ---- snap to the real axis: the component that is dropped is the one that was tested small
     snaps = [e for e in effs if e.kind == "assign" and e.loops and e.value[0] == "call" and str(e.value[1]).endswith("Complex<T>::new") and e.value[2] == ("field", e.target, "real") and e.value[3] == num(0)]
     rule = "a computed root is snapped to the real axis (imaginary part dropped) only under |imag| <= c*|real| with the dropped component on the small side"
